@@ -194,7 +194,7 @@ theorem C03_report_other (cfg : Cfg) (s : St) (c : Ch) (rep : Bytes) (h : rep.ge
 names, and only if its letter is `D`, or `Z` while the message is past its queue lifetime — a temporary failure of a live
 message, a mangled report, a report for an unused or out-of-range delivery number never does. -/
 theorem C03_note_origin (cfg : Cfg) (s : St) (c : Ch) (rep : Bytes) (n : Note) (hn : n ∈ (handleReport cfg s c rep).notes) :
-    n ∈ s.notes ∨ ∃ sl, slotOf s c rep = some sl ∧ n = ⟨sl.m, c, sl.idx, sl.recip⟩ ∧ (rep.headD 0).toNat < cfg.conc c ∧
+    n ∈ s.notes ∨ ∃ sl, slotOf s c rep = some sl ∧ n = ⟨sl.m, c, sl.idx, sl.recip, decide (rep.getD 1 0 = 68)⟩ ∧ (rep.headD 0).toNat < cfg.conc c ∧
       (rep.getD 1 0 = 68 ∨ (rep.getD 1 0 = 90 ∧ s.clock > (s.msg sl.m).birth + cfg.lifetime)) := by
   simp only [handleReport] at hn
   split at hn
@@ -210,13 +210,13 @@ theorem C03_note_origin (cfg : Cfg) (s : St) (c : Ch) (rep : Bytes) (n : Note) (
         · rw [if_pos h1] at hn
           rcases List.mem_append.1 hn with h3 | h3
           · exact Or.inl h3
-          · right; exact ⟨sl, hsl, by simpa using h3, by omega, Or.inl h1⟩
+          · right; exact ⟨sl, hsl, by rw [decide_eq_true h1]; simpa using h3, by omega, Or.inl h1⟩
         · rw [if_neg h1] at hn
           by_cases h2 : rep.getD 1 0 = 90 ∧ s.clock > (s.msg sl.m).birth + cfg.lifetime
           · rw [if_pos h2] at hn
             rcases List.mem_append.1 hn with h3 | h3
             · exact Or.inl h3
-            · right; exact ⟨sl, hsl, by simpa using h3, by omega, Or.inr h2⟩
+            · right; exact ⟨sl, hsl, by rw [decide_eq_false h1]; simpa using h3, by omega, Or.inr h2⟩
           · rw [if_neg h2] at hn; exact Or.inl hn
 
 /-- **A bounce paragraph is appended only for a reported permanent failure**: `appendBounce` consumes an entry of `notes`
@@ -385,6 +385,22 @@ example : acceptAll cfg0 {}
     [.newmsg 7 [115] [[97]], .creatInfo 7, .writeInfo 7 [70, 115, 0], .creatChan 7 .loc, .writeChan 7 .loc [84, 97, 0],
      .fsyncInfo 7, .fsyncChan 7 .loc, .cleanReq [116, 111, 100, 111, 47, 55, 0], .cUnlinkIntd 7, .cUnlinkTodo 7, .cleanResp 43,
      .cmd .loc 0 7 0 [97], .rbytes .loc [0, 68, 120, 10, 0], .markD 7 .loc 0] = none := by
+  decide
+
+/-- the exemptions are per record: message 7 with recipients `a`, `b`; `a` is reported `D` and its paragraph appended, then a
+machine crash empties `bounce/7`.  Record 0 is exempt (`lostRecs`), record 1 — never attempted — is not: it is accounted for
+only as "still queued".  And a crash cannot invent a bounce file for a message that has none and no interrupted `addbounce`. -/
+example :
+    let pre : List Ev :=
+      [.newmsg 7 [115] [[97], [98]], .creatInfo 7, .writeInfo 7 [70, 115, 0], .creatChan 7 .loc, .writeChan 7 .loc [84, 97, 0, 84, 98, 0],
+       .fsyncInfo 7, .fsyncChan 7 .loc, .cleanReq [116, 111, 100, 111, 47, 55, 0], .cUnlinkIntd 7, .cUnlinkTodo 7, .cleanResp 43]
+    ((acceptAll cfg0 {} (pre ++ [.cmd .loc 0 7 0 [97], .rbytes .loc [0, 68, 120, 10, 0], .appendBounce 7 [60, 97, 62, 58, 10, 120, 10, 10],
+        .restart, .crashBounce 7 []])).map fun s => ((s.msg 7).lostRecs, (s.msg 7).droppedRecs, (s.msg 7).noted)) =
+      some ([(.loc, 0)], [], [(.loc, 0)]) ∧
+    acceptAll cfg0 {} (pre ++ [.restart, .crashBounce 7 []]) = none ∧
+    -- interrupted `addbounce` (daemon died between the `D` report and the end of the append): the file may exist, nobody is exempt
+    ((acceptAll cfg0 {} (pre ++ [.cmd .loc 0 7 0 [97], .rbytes .loc [0, 68, 120, 10, 0], .restart, .crashBounce 7 [60, 97]])).map
+        fun s => ((s.msg 7).lostRecs, (s.msg 7).bounce)) = some ([], some [60, 97]) := by
   decide
 
 end Nq.Props.C03
